@@ -27,6 +27,9 @@ type vChanConn struct {
 	closed  int
 	rd      time.Time
 	eof     bool
+	// noDeadline: reads block until data arrives (read deadlines ignored). Used
+	// where cancellation polling is irrelevant and would only multiply timer events.
+	noDeadline bool
 }
 
 func vNewChanConn(stream bool) *vChanConn {
@@ -41,6 +44,18 @@ func (c *vChanConn) Read(p []byte) (int, error) {
 	}
 	if c.eof {
 		return 0, io.EOF
+	}
+	if c.noDeadline {
+		b, ok := <-c.in
+		if !ok {
+			c.eof = true
+			return 0, io.EOF
+		}
+		n := copy(p, b)
+		if c.stream {
+			c.pending = b[n:]
+		}
+		return n, nil
 	}
 	d := time.Until(c.rd)
 	if d < 0 {
@@ -96,8 +111,13 @@ type vSession struct {
 
 // vStartSession starts handler1.run as a task, the way ListenAndServe does.
 func vStartSession(auth bool, user *string, pass []byte, pre topics.PredefinedTopics) *vSession {
+	return vStartSessionOpt(auth, user, pass, pre, false)
+}
+
+func vStartSessionOpt(auth bool, user *string, pass []byte, pre topics.PredefinedTopics, noDeadline bool) *vSession {
 	cfg := &handlerConfig{AuthEnabled: auth, RetryDelay: time.Second, RetryCount: 2, MqttUser: user, MqttPassword: pass}
 	s := &vSession{sn: vNewChanConn(false), mq: vNewChanConn(true)}
+	s.sn.noDeadline, s.mq.noDeadline = noDeadline, noDeadline
 	s.h = newHandler(cfg, pre, util.NoOpLogger{})
 	s.h.mockupDialFunc = func() net.Conn { return s.mq }
 	s.ctx, s.cancel = context.WithCancel(context.Background())
@@ -142,4 +162,12 @@ func (s *vSession) runFor(d time.Duration, maxSteps int) {
 			return
 		}
 	}
+}
+
+// lastMqAt: the time of the last packet written to the broker (def if none since then).
+func (s *vSession) lastMqAt(def int64) int64 {
+	if n := len(s.mq.outAt); n > 0 && s.mq.outAt[n-1] > def {
+		return s.mq.outAt[n-1]
+	}
+	return def
 }
